@@ -253,13 +253,43 @@ type c29Explorer struct {
 	alts    [10]c29Model  // ... and the mod-(2^31-1) classifier model
 }
 
+// behavesLikeBadModulus: in state w (reached by the history both models
+// followed), does the real window answer the two decisive questions -- a batch
+// at the sequence a mod-(2^31-1) window expects next, and a batch at the
+// sequence Kafka expects next -- the way the mod-(2^31-1) model does?
+func c29BehavesLikeBadModulus(w *pidwindow, ref, alt *c29Model) bool {
+	if !ref.seen || ref.next == alt.next {
+		return false // the two moduli do not differ here
+	}
+	for _, f := range [2]int32{alt.next, ref.next} {
+		wc := *w
+		ok, dup, off := wc.pushAndValidate(ref.epoch, f, 1, 0)
+		got := c29Res{Ok: ok, Dup: dup}
+		if dup {
+			got.Off = off
+		}
+		a := alt.eval(ref.epoch, f, 1)
+		if a.Ok && !a.Dup {
+			a.Off = 0
+		}
+		if got != a {
+			return false
+		}
+	}
+	return true
+}
+
 // fail records one wrong answer. The class is "wrap-modulus" iff the wrong
-// answer is exactly what the same window computing (s+n) mod (2^31-1) says.
-func (x *c29Explorer) fail(kindIdx int, probe c29Step, want, got, alt c29Res, mutated bool) {
+// answer is exactly what the same window computing (s+n) mod (2^31-1) says
+// AND the window in this state is consistently a mod-(2^31-1) window (so that
+// e.g. a window that accepts gaps is not filed under the modulus class just
+// because one of its wrong answers coincides at the boundary).
+func (x *c29Explorer) fail(kindIdx int, probe c29Step, want, got c29Res, w *pidwindow, ref, altm *c29Model, mutated bool) {
 	kind := c29KindNames[kindIdx]
+	alt := altm.eval(probe.Epoch, probe.First, probe.N)
 	var key string
 	switch {
-	case !mutated && got == alt && got != want:
+	case !mutated && got == alt && got != want && c29BehavesLikeBadModulus(w, ref, altm):
 		key = "C29:kfake:pidwindow:wrap-modulus"
 	case mutated:
 		key = "C29:kfake:state-mutated"
@@ -324,7 +354,7 @@ func (x *c29Explorer) probe(kind int, w *pidwindow, ref, alt *c29Model, epoch in
 		// original offset. It must never append it again.
 		x.st.evictProbe++
 		if got.Ok && !got.Dup && !want.Ok {
-			x.fail(kind, p, want, got, alt.eval(epoch, first, n), false)
+			x.fail(kind, p, want, got, w, ref, alt, false)
 			return false
 		}
 		if got.Ok && got.Dup && !want.Ok {
@@ -333,18 +363,18 @@ func (x *c29Explorer) probe(kind int, w *pidwindow, ref, alt *c29Model, epoch in
 					return true
 				}
 			}
-			x.fail(kind, p, want, got, alt.eval(epoch, first, n), false)
+			x.fail(kind, p, want, got, w, ref, alt, false)
 			return false
 		}
 	}
 	if got != want {
-		x.fail(kind, p, want, got, alt.eval(epoch, first, n), false)
+		x.fail(kind, p, want, got, w, ref, alt, false)
 		return false
 	}
 	// A batch that was not appended (duplicate or rejected) must leave the
 	// window exactly as it was.
 	if (!got.Ok || got.Dup) && wc != *w {
-		x.fail(kind, p, want, got, alt.eval(epoch, first, n), true)
+		x.fail(kind, p, want, got, w, ref, alt, true)
 		return false
 	}
 	return true
